@@ -15,9 +15,9 @@ NaN inputs are outside the model (`np.sign(nan)` is `nan`; here a scalar is `< 0
 namespace TW
 
 /-- `np.floor`, needed for `np.mod(·, 360.0)` -/
-class HasFloor (K : Type) where
+class HasFloorK (K : Type) where
   floor : K → K
-instance : HasFloor Float := ⟨Float.floor⟩
+instance : HasFloorK Float := ⟨Float.floor⟩
 
 
 /-- the descriptive entries of the dictionary returned by `_build_fit` -/
@@ -61,10 +61,10 @@ def signK (d : K) : K := if d < zeroK then -oneK else if zeroK < d then oneK els
 def properOf (sdet : K) : Bool := !(decide (sdet < zeroK))
 
 section
-variable [HasFloor K]
+variable [HasFloorK K]
 
 /-- `np.mod(a, 360.0)`: the result has the sign of the divisor -/
-def mod360 (a : K) : K := a - HasFloor.floor (a / k360) * k360
+def mod360 (a : K) : K := a - HasFloorK.floor (a / k360) * k360
 
 /-- `skew = np.mod(roty - rotx - 180.0, 360.0) - 180.0` -/
 def skewWrap (rotx roty : K) : K := mod360 (roty - rotx - k180) - k180
@@ -100,7 +100,7 @@ def rotYOf (w01 w11 : K) : K := HasTrig.atan2deg w01 w11
 def singleAngle (g : FitGeom) (proper : Bool) : Bool :=
   proper && (g == .rshift || g == .rscale)
 
-variable [HasFloor K]
+variable [HasFloorK K]
 
 /-- `(rotx, roty, <rot>, skew)` from the scale-free working copy -/
 def anglesOf (g : FitGeom) (proper : Bool) (prot w00 w01 w10 w11 : K) : K × K × K × K :=
